@@ -784,6 +784,8 @@ void GlobalGraph::setRoot(Graph::NodeId newRoot)
 {
   nodeMustExist_(newRoot, "new root");
   root_ = newRoot;
+  // whether the graph is a tree depends on the node it is walked from
+  this->topologyHasChanged_();
 }
 
 Graph::NodeId GlobalGraph::getRoot() const
